@@ -20,4 +20,4 @@ for w in $(seq 1 $N); do
   done
   rm -rf /tmp/vw$w; git -C /repo worktree remove --force /tmp/rw$w
 done
-cat /tmp/seedpar_*.log | grep -v WARN | cut -c1-200
+for w in $(seq 1 $N); do grep -v WARN /tmp/seedpar_$w.log | cut -c1-200; done
